@@ -1160,7 +1160,7 @@ class MapV:
         self.d = {}
 
     def __repr__(self):
-        return 'Map{%s}' % ', '.join('%r: %r' % (k, c.v) for k, c in self.d.items())
+        return 'Map{%s}' % ', '.join('%r: %r' % (kv, c.v) for kv, c in self.d.values())
 
 
 def _mkey(v):
